@@ -474,7 +474,7 @@ func (inc *incarnation) closePass() {
 	waiting := func(u string) bool {
 		e := ps.ents[u]
 		_, run := ps.running[u]
-		return e.state == arvados.ContainerStateLocked && !run
+		return e.state == arvados.ContainerStateLocked && !run && e.prio > 0 // priority 0 = held, not waiting for a worker
 	}
 	for _, u1 := range sortedKeys(ps.unlocked) {
 		if _, ok := ps.ents[u1]; !ok || !waiting(u1) {
